@@ -553,8 +553,15 @@ def _exec_genfile(run, rd):
                     (np.savez_compressed if plan["compress"] else np.savez)(os.path.join(data_dir, rel), **raw)
             else:
                 if plan.get("explicit_filename"):
+                    fname_arg = rel
+                    if plan["np_seed"] % 5 in (1, 2, 3):
+                        # a requested name without the extension and with a dot in it ("tsp20_v1.0"): the documented
+                        # behaviour appends ".npz" (as np.savez does), the environment is then given that file
+                        fname_arg = f"set{fi}_v1.{fi}"
+                        rel = fname_arg + ".npz"
+                        run.probe("genfile_dotted_name_without_extension")
                     with run.guard(scope, "generate_dataset(filename=...)", problem=prob):
-                        generate_dataset(filename=os.path.join(data_dir, rel), problem=prob, dataset_size=K,
+                        generate_dataset(filename=os.path.join(data_dir, fname_arg), problem=prob, dataset_size=K,
                                          graph_sizes=[n], seed=seed, overwrite=True,
                                          **({"data_distribution": dist} if dist else {}))
                 else:
